@@ -5,6 +5,8 @@ cancellations), symbolic: event times/delays, priorities, replication length `en
 time, and a segmentation of S commands (VF_S):
    cmd 0 run_up_to(b)   1 run_up_to_including(b)   2 step()   3 start() paused by a stop()
    issued from the handler of the b-th event executed in that segment
+   4 / 5 run_up_to(b) / run_up_to_including(b) paused by a stop() issued from the handler of the
+   first event the bounded run executes
 followed by a final start() while the simulator is still resumable.
 Oracle (only what the property states):
  * a bounded run executes exactly the reference events with time < b (<= b inclusive),
@@ -68,9 +70,13 @@ def segmented(vals, prios, end, warm, cmds, bounds):
         before_clock = sim.simulator_time
         before_len = len(model.trace)
         where = f"segment {n}: cmd {cmd} arg {b}"
-        if cmd in (0, 1):
+        if cmd in (0, 1, 4, 5):
+            paused_run = cmd >= 4          # 4/5: the bounded run is paused by a stop() issued from
+            cmd = cmd - 4 if paused_run else cmd   # the handler of the first event it executes
             B = conv(b)
             refused = False
+            if paused_run:
+                pause["at"] = pause["count"] + 1
             try:
                 if cmd == 0:
                     quiet(sim.run_up_to, B)
@@ -79,6 +85,7 @@ def segmented(vals, prios, end, warm, cmds, bounds):
             except DSOLError:
                 refused = True
             settle(sim)
+            pause["at"] = -1
             if ended:
                 if not refused:
                     return rt.fail("C03:command-after-end-accepted", lambda: where)
@@ -94,7 +101,26 @@ def segmented(vals, prios, end, warm, cmds, bounds):
             if cmd == 0 and B >= ENDT:
                 comparable = False
             eff = B if B < ENDT else ENDT
-            ref.run(eff, (cmd == 1) or B > ENDT)
+            if paused_run:
+                hit = False
+                while True:
+                    t = ref.peek_time()
+                    if t is None or t > eff or (t == eff and not ((cmd == 1) or B > ENDT)):
+                        break
+                    if ref.step() >= 0:
+                        hit = True
+                        break
+                if hit:
+                    if sim.simulator_time != ref.clock:
+                        return rt.fail("C03:pause-clock", lambda: f"{where}: clock {sim.simulator_time} expected {ref.clock}")
+                    if sim.run_state != RunState.STOPPED or sim.replication_state != ReplicationState.STARTED or spy.ends != 0:
+                        return rt.fail("C03:not-resumable-after-pause",
+                                       lambda: f"{where}: {sim.run_state} {sim.replication_state} END fired {spy.ends}x")
+                    if len(model.trace) != len(ref.trace):
+                        return rt.fail("C03:segment-trace", lambda: f"{where}: executed {model.trace} expected {ref.trace}")
+                    continue
+            else:
+                ref.run(eff, (cmd == 1) or B > ENDT)
             if sim.simulator_time != eff and sim.simulator_time != B:
                 return rt.fail("C03:clock-not-at-bound", lambda: f"{where}: clock {sim.simulator_time} expected {eff}")
             if B < ENDT and (sim.run_state != RunState.STOPPED or sim.replication_state != ReplicationState.STARTED
@@ -183,7 +209,7 @@ def h_seg(vals: List[int], prios: List[int], end: int, warm: int, cmds: List[int
     pre: all(0 <= p <= 2 * PRIOSYM for p in prios)
     pre: 1 <= end <= VMAX + 1 and 0 <= warm <= end
     pre: FIXWARM < 0 or warm == FIXWARM
-    pre: all(0 <= c <= 3 for c in cmds)
+    pre: all(0 <= c <= 5 for c in cmds)
     pre: all(0 <= b <= VMAX + 2 for b in bounds)
     pre: all(cmds[i] == FIXCMD[i] for i in range(len(FIXCMD)))
     post: _
